@@ -431,6 +431,13 @@ struct G
         sc.clocks.push_back("gx0");
         add(var("chan ch0;", "ch0"));
         sc.chans.push_back("ch0");
+        if (rng.chance(0.08)) {
+            // a word that is a keyword in queries only is an ordinary name in a model
+            static const char* qk[] = {"control", "strategy", "simulate", "bounds", "under", "imitate", "sat"};
+            std::string n = qk[rng.below(7)];
+            add(var("int " + n + ";", n));
+            sc.ints.push_back(n);
+        }
         if (rng.chance(0.25)) {
             // "lvl" is a type in some documents (or templates) and a variable in others
             lvl_used = true;
@@ -554,6 +561,10 @@ struct G
             }
             case 8: {
                 std::string n = "uc" + std::to_string(uniq++);
+                if (rng.chance(0.3)) {
+                    add(var("urgent broadcast chan " + n + ";", n));  // both prefixes
+                    break;
+                }
                 add(var("urgent chan " + n + ";", n));
                 sc.uchans.push_back(n);
                 break;
